@@ -30,14 +30,15 @@ RULE = ("case = seeded pattern lists (documented grammar U + undocumented-but-va
         "nothing, live patterns placed at batch borders) x 24-40 file names (60% derived from the patterns); one evaluation = "
         "one (list, name) or (pattern, name) judged; non-trivial = at least one single pattern matches the name "
         "(grouping/precedence/e2e) or the pair is judged by the reference (single); distinct = distinct (patterns, name)")
-CASES = {"quick": 384, "thorough": 16000}
-BUDGET_S = {"quick": 45, "thorough": 800}
+CASES = {"quick": 256, "thorough": 16000}
+BUDGET_S = {"quick": 30, "thorough": 800}
 MIN_EVALS = {"quick": 20000, "thorough": 2500000}
 FLOORS = {
-    "quick": {"grouping_list": 2000, "grouping_multibatch_hit": 150, "grouping_permutation": 2000, "grouping_split": 2000,
-              "ordered_globster": 2000, "single_ref": 50000, "single_ref_match": 3000, "precedence": 3000,
-              "precedence_excluded": 800, "precedence_doubleneg": 1000, "e2e_is_ignored": 1000, "e2e_tree_listing": 40,
-              "single_newline_name": 2000, "doc_example": 25},
+    # quick floors sit at ~15% of a full run: on a loaded machine the 30 s soft deadline cuts the run short
+    "quick": {"grouping_list": 1200, "grouping_multibatch_hit": 120, "grouping_permutation": 1200, "grouping_split": 1200,
+              "ordered_globster": 1200, "single_ref": 30000, "single_ref_match": 2000, "precedence": 2000,
+              "precedence_excluded": 500, "precedence_doubleneg": 800, "e2e_is_ignored": 500, "e2e_tree_listing": 15,
+              "single_newline_name": 1200, "doc_example": 25},
     # thorough floors sit at ~20% of a full run: a loaded machine that reaches the soft deadline early must not turn "held" into "inconclusive"
     "thorough": {"grouping_list": 90000, "grouping_multibatch_hit": 10000, "grouping_permutation": 90000,
                  "grouping_split": 90000, "ordered_globster": 90000, "single_ref": 2500000, "single_ref_match": 170000,
@@ -415,7 +416,7 @@ def _template_tree():
 
 
 def oracle_e2e(ctx, rng, pats, names, fixed=None):
-    from breezy import bedding, ignores
+    from breezy import bedding, ignores, lazy_regex
     from breezy.workingtree import WorkingTree
 
     pp = fixed or [(pre, p) for pre, p in _prefixed(rng, [p for p in pats if not p.startswith("#") and p == p.strip() and p])
@@ -498,6 +499,13 @@ def oracle_e2e(ctx, rng, pats, names, fixed=None):
                 if f in ign:
                     judge_exception(jctx, ign[f], N, E, D, key + ":listing", "ignored_files()[%r]" % f, d)
                 ctx.hist("e2e_listing:" + ("ignored" if should else "unknown"))
+    except lazy_regex.InvalidPattern as e:
+        # every pattern written was valid on its own (filtered with is_pattern_valid): only the mangling of a
+        # prefixed RE: pattern by the ignore-file reader can make the list invalid
+        if not has_pre_re:
+            raise
+        jctx.check(False, key, "valid patterns, but the tree's matcher raises InvalidPattern: %s" % str(e)[:200].replace("\n", " "),
+                   {"bzrignore": src["bzrignore"][:40], "user": src["user"][:40], "runtime": src["runtime"][:40]})
     finally:
         rt.clear()
         rt.update(saved_rt)
@@ -580,5 +588,5 @@ def case(ctx):
     oracle_precedence(ctx, rng, pats, names)
     small = [p for p in [p for p, _ in upats[:12]] + [R.gen_A(rng, names) for _ in range(2)] if _valid(p)]
     oracle_precedence(ctx, rng, small, snames[:24])
-    if ctx.index % 2 == 0:
+    if rng.random() < 0.5:        # (not index % 2: shards take indices modulo the shard count)
         oracle_e2e(ctx, rng, small + [p for p in pats if "zfill" not in p][:30] + [p for p in pats if "zfill" in p][:40], snames[:30])
